@@ -301,6 +301,36 @@ fn main() {
                 check_bytes_input(&sink, &inp);
             });
             sink.count(&format!("byte entry points: class alphabet, length {n}"), cls.len() as u64);
+            // focused alphabets, longer strings: sequences aborted and restarted (stale bookkeeping),
+            // sub-parameters, OSC fields, string terminators inside characters
+            for (name, syms, len) in [
+                ("csi/dcs focus", &[0x1bu8, b'[', b'P', b'1', b':', b';', b'm', b'q', 0x18, b' '][..], if thorough { 8 } else { 7 }),
+                ("osc focus", &[0x1bu8, b']', b'a', b';', 0x07, 0x18, b'\\', 0x9c][..], if thorough { 8 } else { 7 }),
+                ("utf8/st focus", &[0x1bu8, b'_', b'P', b'\\', b'a', 0x0a, 0xe2, 0x9c, 0x85, 0xc3, 0xa9, 0xf0, 0x9f, 0x80][..], if thorough { 6 } else { 5 }),
+            ] {
+                let strs: Vec<Vec<usize>> = strings_upto(syms.len(), len).collect();
+                strs.par_iter().for_each(|s| {
+                    let inp: Vec<u8> = s.iter().map(|&i| syms[i]).collect();
+                    check_bytes_input(&sink, &inp);
+                    if let Ok(t) = std::str::from_utf8(&inp) {
+                        check_str_input(&sink, t, false);
+                    }
+                });
+                sink.count(&format!("byte entry points: {name}, length <= {len}"), strs.len() as u64);
+            }
+            // every BMP character inside and after each kind of sequence, through the text entry points
+            {
+                let prefixes: [&str; 9] = ["", "\x1b", "\x1b[", "\x1b[1", "\x1b]", "\x1bP", "\x1bP1q", "\x1b_", "\x1b "];
+                let cps: Vec<char> = (0x80u32..=0xFFFF).filter_map(char::from_u32).chain([0x10000u32, 0x1F600, 0x1F705, 0x10FFFF].into_iter().filter_map(char::from_u32)).collect();
+                cps.par_iter().for_each(|&ch| {
+                    for pre in prefixes {
+                        let input = format!("{pre}{ch}m\u{7}x\x1b\\y");
+                        check_str_input(&sink, &input, false);
+                        check_bytes_input(&sink, input.as_bytes());
+                    }
+                });
+                sink.count("text entry points: every BMP character after each of 9 sequence prefixes", cps.len() as u64 * 9);
+            }
             // macro inputs reaching the limits
             let mut macros: Vec<Vec<u8>> = vec![];
             for k in [15usize, 16, 17, 40] {
